@@ -26,15 +26,15 @@ type Violation struct {
 
 // CaseResult is what a worker reports for one case.
 type CaseResult struct {
-	Idx        int              `json:"idx"`
-	Sig        string           `json:"sig,omitempty"` // abstract signature of the case (distinctness)
-	Nontrivial bool             `json:"nt,omitempty"`
-	Execs      int              `json:"execs,omitempty"` // executions judged in this case (default 1)
-	Viol       []Violation      `json:"viol,omitempty"`
-	Stats      map[string]int64 `json:"stats,omitempty"`
-	Sample     interface{}      `json:"sample,omitempty"`
-	Witness    interface{}      `json:"witness,omitempty"`
-	Inconcl    string           `json:"inconcl,omitempty"`
+	Idx        int                 `json:"idx"`
+	Sig        string              `json:"sig,omitempty"` // abstract signature of the case (distinctness)
+	Nontrivial bool                `json:"nt,omitempty"`
+	Execs      int                 `json:"execs,omitempty"` // executions judged in this case (default 1)
+	Viol       []Violation         `json:"viol,omitempty"`
+	Stats      map[string]int64    `json:"stats,omitempty"`
+	Sample     interface{}         `json:"sample,omitempty"`
+	Witness    interface{}         `json:"witness,omitempty"`
+	Inconcl    string              `json:"inconcl,omitempty"`
 	Sets       map[string][]string `json:"sets,omitempty"` // named sets of observed abstract states (unioned by the parent)
 }
 
